@@ -508,6 +508,27 @@ func vC45_fusedStep() {
 }
 
 // ---- batchFlowActor (size trigger only; the maxWait timer message is never delivered) ---------------------
+// The assertions are the list semantics of Batch(m), independent of how the stage schedules its flushes: batches have 1..m
+// elements, their concatenation is the input in order, a batch needs one unit of demand, a full window does not wait when
+// there is demand, and the completion is forwarded only after everything received has been emitted.
+
+// emitted batches of one step, concatenated; sizes checked against m
+func vC45_batches(o *vSOutbox, m int, out *[8]int) (count int) {
+	for b := 0; b < 4; b++ {
+		if b < o.n {
+			batch, ok := o.vals[b].([]int)
+			vAssert(ok && len(batch) >= 1, "a batch is a non-empty []T")
+			vAssert(len(batch) <= m, "a batch has at most maxSize elements")
+			for i := 0; i < 4; i++ {
+				if i < len(batch) && count < 8 {
+					out[count] = batch[i]
+					count++
+				}
+			}
+		}
+	}
+	return count
+}
 
 func vC45_batchStep() {
 	id := vNondetInt64("initialDemand")
@@ -523,8 +544,7 @@ func vC45_batchStep() {
 	a.Receive(actor.VCtx(self, &stageWire{subID: "s", upstream: up, downstream: down}))
 	vAssert(len(actor.VOut) == 0 && actor.VShutdowns == 0, "wiring a batch stage sends nothing")
 
-	// arbitrary state. Between handlers the real stage can hold ANY window length together with any demand:
-	// a full window is not emitted while demand is 0, and a later streamRequest does not flush it.
+	// arbitrary state (upstream not yet completed): a window that is not full, or a longer one that waits for demand
 	w := vNondetInt("window")
 	vAssume(w >= 0 && w <= 3)
 	var win [5]int
@@ -536,6 +556,7 @@ func vC45_batchStep() {
 	}
 	uc, dd := vNondetInt64("upstreamCredit"), vNondetInt64("downstreamDemand")
 	vAssume(uc >= 0 && uc <= id && uc+int64(w) <= id && dd >= 0 && dd <= 4)
+	vAssume(w < m || dd == 0) // Inv: a full window never waits while there is demand
 	a.upstreamCredit, a.downstreamDemand = uc, dd
 	a.timerActive = w > 0
 	seq0 := vNondetUint64("seqNo")
@@ -544,14 +565,17 @@ func vC45_batchStep() {
 	op := vChoose("msg", 5)
 	n, x := vNondetInt64("n"), vNondetInt("x")
 	var msg any
+	held, demand := w, dd
 	switch op {
 	case 0:
 		vAssume(n >= 1 && n <= 4)
 		msg = &streamRequest{subID: "s", n: n}
+		demand += n
 	case 1:
 		vAssume(uc >= 1)
 		msg = &streamElement{subID: "s", value: x, seqNo: 1}
 		win[w] = x
+		held = w + 1
 	case 2:
 		msg = &streamComplete{subID: "s"}
 	case 3:
@@ -564,39 +588,36 @@ func vC45_batchStep() {
 	o := vS_collect(up, down, "s")
 	stopped := actor.VShutdowns > 0
 	vAssert(o.other == 0 && actor.VUnhandled == 0 && !o.badSub && !o.lateElem, "a batch stage only sends elements/complete/error downstream and request/cancel upstream")
-	vAssert(o.n <= 1, "at most one batch per step")
-	held := w
-	if op == 1 {
-		held = w + 1
-	}
-	if o.n == 1 {
-		batch, ok := o.vals[0].([]int)
-		vAssert(ok && len(batch) >= 1, "a batch is a non-empty []T")
-		vAssert(dd > 0 && op != 0, "a batch is emitted only against downstream demand")
-		vAssert(len(batch) == held, "a batch carries every element the window held, none lost")
+	var out [8]int
+	nout := vC45_batches(o, m, &out)
+	if op <= 2 {
+		vAssert(int64(o.n) <= demand, "a batch is emitted only against downstream demand")
+		vAssert(nout <= held, "nothing is emitted that was not received")
 		for i := 0; i < 4; i++ {
-			if i < len(batch) && i < held {
-				vAssert(batch[i] == win[i], "a batch carries the window's elements in arrival order")
+			if i < nout && i < held {
+				vAssert(out[i] == win[i], "the batches, concatenated, are the received elements in arrival order")
 			}
 		}
-		vAssert(len(batch) <= m, "a batch has at most maxSize elements")
-		vAssert(o.seqs[0] == seq0+1 && a.downstreamDemand == dd-1 && len(a.window) == 0, "emitting a batch consumes one unit of demand and empties the window")
-		vCover("batch-emitted")
+		for i := 0; i < 4; i++ {
+			if i < o.n {
+				vAssert(o.seqs[i] == seq0+uint64(i)+1, "batches are numbered consecutively")
+			}
+		}
+		if o.n >= 1 {
+			vCover("batch-emitted")
+		}
 	}
 	switch op {
 	case 0, 1:
 		vAssert(!stopped && o.completes == 0 && o.errs == 0 && o.cancels == 0, "no termination in normal operation")
-		if op == 1 && held >= m && dd > 0 {
-			vAssert(o.n == 1, "a full window is emitted when there is demand")
-		}
-		if o.n == 0 {
-			vAssert(len(a.window) == held, "unemitted elements stay in the window")
-			for i := 0; i < 4; i++ {
-				if i < held && i < len(a.window) {
-					vAssert(a.window[i] == win[i], "the window keeps arrival order")
-				}
+		vAssert(a.downstreamDemand == demand-int64(o.n), "demand ledger = previous + requested - batches emitted")
+		vAssert(len(a.window) == held-nout, "unemitted elements stay in the window")
+		for i := 0; i < 4; i++ {
+			if i < held-nout && i < len(a.window) {
+				vAssert(a.window[i] == win[nout+i], "the window keeps arrival order")
 			}
 		}
+		vAssert(len(a.window) < m || a.downstreamDemand == 0, "a full window is emitted as soon as there is demand (Inv preserved)")
 		ucWant := uc + o.reqN
 		if op == 1 {
 			ucWant--
@@ -605,9 +626,16 @@ func vC45_batchStep() {
 		vAssert(a.upstreamCredit+int64(len(a.window)) <= id, "a batch stage never holds or requests more than InitialDemand")
 		vAssert(a.upstreamCredit > 0 || len(a.window) > 0, "a live batch stage with an empty window has credit outstanding upstream (no stall)")
 	case 2:
-		vAssert(stopped && o.completes == 1 && o.errs == 0, "on upstream completion the batch stage completes downstream and stops")
+		vAssert(o.errs == 0 && o.cancels == 0 && o.completes <= 1, "completion produces no failure")
+		if o.completes == 1 {
+			vAssert(stopped, "a completed batch stage stops")
+			vAssert(nout == held, "when the completion is forwarded every received element has been emitted before it (nothing is lost)")
+			vCover("completes")
+		} else {
+			vAssert(!stopped && nout < held && a.downstreamDemand == 0, "the completion is held back only while elements wait for demand")
+			vCover("completion-deferred")
+		}
 		if w > 0 {
-			vAssert(o.n == 1, "on upstream completion the remaining window is emitted before the completion (nothing is lost)")
 			vCover("complete-with-window")
 		}
 	case 3:
@@ -619,8 +647,7 @@ func vC45_batchStep() {
 }
 
 // Batch from the moment it is wired: K arbitrary messages that respect the protocol (elements only against the credit the
-// stage requested, completion last) against the list semantics of Batch(m): the emitted batches, concatenated, are the
-// input; every batch has 1..m elements; at completion nothing is left behind.
+// stage requested, completion after the last element, then only requests) against the list semantics of Batch(m).
 func vC45_batchHistory() {
 	const maxK = 5
 	K := vCase("steps")
@@ -635,49 +662,46 @@ func vC45_batchHistory() {
 	self, up, down := actor.VNewSysPID(), actor.VNewPID(), actor.VNewPID()
 	actor.VReset()
 	a.Receive(actor.VCtx(self, &stageWire{subID: "s", upstream: up, downstream: down}))
-	var in [maxK]int  // elements delivered to the stage
-	var out [maxK]int // elements the stage emitted (batches concatenated)
+	var in [maxK]int // elements delivered to the stage
+	var out [8]int   // elements the stage emitted (batches concatenated)
 	nin, nout := 0, 0
 	credit := int64(0) // requested by the stage and not yet delivered
-	finished := false
+	upDone, stageDone := false, false
 	for k := 0; k < K; k++ {
-		if finished {
+		if stageDone {
 			break
 		}
 		op := vChoose("msg", 3)
+		n, x := vNondetInt64("n"), vNondetInt("x")
 		actor.VReset()
 		switch op {
 		case 0:
-			n := vNondetInt64("n")
 			vAssume(n >= 1 && n <= 3)
 			a.Receive(actor.VCtx(self, &streamRequest{subID: "s", n: n}))
 		case 1:
-			vAssume(credit >= 1)
-			x := vNondetInt("x")
+			vAssume(credit >= 1 && !upDone)
 			in[nin] = x
 			nin++
 			credit--
 			a.Receive(actor.VCtx(self, &streamElement{subID: "s", value: x, seqNo: uint64(nin)}))
 		default:
+			vAssume(!upDone)
 			a.Receive(actor.VCtx(self, &streamComplete{subID: "s"}))
-			finished = true
+			upDone = true
 		}
 		o := vS_collect(up, down, "s")
-		vAssert(o.other == 0 && o.errs == 0 && o.cancels == 0 && !o.lateElem && o.n <= 1, "history: only batches, at most one per step")
+		vAssert(o.other == 0 && o.errs == 0 && o.cancels == 0 && !o.lateElem, "history: only batches and a completion go downstream")
 		credit += o.reqN
-		if o.n == 1 {
-			batch, ok := o.vals[0].([]int)
-			vAssert(ok && len(batch) >= 1, "history: a batch is a non-empty []T")
-			vAssert(len(batch) <= m, "history: a batch has at most maxSize elements")
-			for i := 0; i < maxK; i++ {
-				if i < len(batch) && nout < maxK {
-					out[nout] = batch[i]
-					nout++
-				}
+		var got [8]int
+		ngot := vC45_batches(o, m, &got)
+		for i := 0; i < 4; i++ {
+			if i < ngot && nout < 8 {
+				out[nout] = got[i]
+				nout++
 			}
-			if len(batch) > 1 {
-				vCover("batch-of-two")
-			}
+		}
+		if ngot >= 2 {
+			vCover("two-elements-in-one-step")
 		}
 		vAssert(nout <= nin, "history: nothing is emitted that was not received")
 		for i := 0; i < maxK; i++ {
@@ -685,15 +709,21 @@ func vC45_batchHistory() {
 				vAssert(out[i] == in[i], "history: the batches, concatenated, are a prefix of the input in order")
 			}
 		}
-		if finished {
-			vAssert(o.completes == 1 && actor.VShutdowns > 0, "history: completion is forwarded once and the stage stops")
+		if o.completes > 0 {
+			stageDone = true
+			vAssert(upDone && o.completes == 1 && actor.VShutdowns > 0, "history: the completion is forwarded once, after upstream completed, and the stage stops")
 			vAssert(nout == nin, "history: at completion every received element has been emitted (nothing is lost)")
 			if nin >= 2 {
 				vCover("complete-after-two")
 			}
 		} else {
-			vAssert(o.completes == 0 && actor.VShutdowns == 0, "history: no completion before upstream completes")
+			vAssert(actor.VShutdowns == 0, "history: the stage keeps running until it forwards the completion")
 			vAssert(nout+len(a.window) == nin, "history: every received element is either emitted or still in the window")
+			vAssert(len(a.window) < m || a.downstreamDemand == 0, "history: a full window does not wait while there is demand")
+			if upDone {
+				vAssert(len(a.window) > 0 && a.downstreamDemand == 0, "history: after upstream completed only missing demand delays the completion")
+				vCover("completion-deferred")
+			}
 		}
 	}
 	vCover("end")
